@@ -2,6 +2,7 @@ import Driver.Util
 import Driver.Adt
 import GtirbVerif.Model.IR.Modify
 import GtirbVerif.Spec.ListingCheck
+import GtirbVerif.Model.IR.Batch
 
 /-! JSON <-> abstract IR (the canonical dump produced by harness/irdump.py). -/
 namespace Driver.IRJson
@@ -273,6 +274,18 @@ def handleListing (op : String) (j : Json) : Option (Except String Json) :=
       ("C01", issuesJ (checkBytes before after edits nop)),
       ("C02", issuesJ (checkLabels before after edits nop)),
       ("C04", issuesJ (checkAnnotations before after edits nop ++ checkNoDuplicateSymbols before after))])
+  | "seq_positions" => some do
+    -- the offset bookkeeping of `_apply_modifications` for the edits of one block
+    let edits ← (← arr j "edits").mapM leditOf
+    let block ← getNat j "block"
+    let base ← getNat j "base"
+    let bytes ← getNatList j "bytes"
+    let es := GtirbVerif.Listing.editsOf edits block
+    .ok (Json.mkObj [
+      ("positions", toJson (GtirbVerif.Batch.positions base 0 es)),
+      ("order", toJson (es.map (·.order))),
+      ("seq", toJson (GtirbVerif.Batch.seqSplice 0 bytes 0 es)),
+      ("spec", toJson (GtirbVerif.Listing.spliceSpec bytes 0 es))])
   | _ => none
 
 end Driver.IRJson
